@@ -230,7 +230,7 @@ const Root = "/verif"
 
 // Main is the entry point of the kmc binary.
 func Main(args []string) int {
-	if len(args) < 2 {
+	if len(args) < 2 && !(len(args) == 1 && args[0] == "list") {
 		fmt.Fprintln(os.Stderr, "usage: kmc check <id> [--tier quick|thorough] | worker ... | replay <path> | list")
 		return 2
 	}
